@@ -179,6 +179,33 @@ func run(x *h.Ctx, c Case) string {
 		return fmt.Sprintf("NR at END is %d but %d records were seen\nRS=%q input=%q", nr, len(recs), rs, h.Trunc(string(input), 300))
 	}
 	in := string(input)
+	// position independence: a long separator-free prefix moves the interesting part to the scanner's buffer edge;
+	// the records and their RT must be those of the unprefixed input, the first record's text merely being longer
+	if c.Pad > 0 && (kind == "paragraph" || kind == "newline" || kind == "byte") && len(c.Input) > 0 && !strings.ContainsAny(string(c.Input[:1]), "\r\n"+rs) {
+		plain, err := execute(prog, []byte(c.Input), nil, via, dir)
+		if err == nil {
+			if r0, _, ok0 := parseTranscript(plain); ok0 && len(r0) > 0 {
+				same := len(r0) == len(recs)
+				for i := 0; same && i < len(r0); i++ {
+					wantText := r0[i].text
+					if i == 0 {
+						wantText = strings.Repeat("f", c.Pad) + wantText
+					}
+					same = recs[i].text == wantText && recs[i].rt == r0[i].rt
+				}
+				if !same {
+					short := func(r []rec) string {
+						var sb strings.Builder
+						for _, q := range r {
+							fmt.Fprintf(&sb, " [%q RT=%q]", h.Trunc(strings.TrimLeft(q.text, "f"), 60), q.rt)
+						}
+						return sb.String()
+					}
+					return fmt.Sprintf("the records (or their RT) depend on where the scanner's internal buffer boundary falls: the same text preceded by %d filler bytes splits differently\nRS=%q text=%q\nalone:      %s\nwith prefix (filler stripped):%s", c.Pad, rs, string(c.Input), short(r0), short(recs))
+				}
+			}
+		}
+	}
 	show := func(r []rec) string {
 		var sb strings.Builder
 		for _, q := range r {
@@ -443,7 +470,18 @@ func genCase(t *rapid.T) Case {
 func genEdge(t *rapid.T) Case {
 	c := Case{RS: h.Str(rapid.SampledFrom(rsPool).Draw(t, "rs")), Via: rapid.SampledFrom([]string{"main", "file", "getline"}).Draw(t, "via")}
 	c.Input = h.Str(genInput(t, 12))
-	c.Pad = 65536 - rapid.IntRange(0, 40).Draw(t, "before")
+	if rapid.IntRange(0, 3).Draw(t, "para") == 0 {
+		// paragraph mode with runs of several newlines (and CRLF blank lines) at the edge
+		c.RS = ""
+		var sb strings.Builder
+		for i := rapid.IntRange(1, 4).Draw(t, "nparas"); i > 0; i-- {
+			sb.WriteString(rapid.SampledFrom([]string{"a", "ab c", "x\ny", ""}).Draw(t, "ptext"))
+			sb.WriteString(rapid.SampledFrom([]string{"\n\n", "\n\n\n", "\n\n\n\n", "\r\n\r\n", "\n\r\n\n", "\n\n\n\n\n\n", "\n"}).Draw(t, "psep"))
+		}
+		c.Input = h.Str(sb.String())
+	}
+	// the buffer edge falls on a drawn offset of the interesting part (every offset of it is equally likely)
+	c.Pad = 65536 - rapid.IntRange(0, len(c.Input)).Draw(t, "before")
 	// "file-like" delivery: fill whatever buffer is offered (chunk size 0), and one split exactly at the edge
 	c.Deliveries = [][]int{{0}, {65536, 1 << 30}, {c.Pad, 1 << 30}, {4096}}
 	return c
@@ -618,5 +656,5 @@ func init() {
 	h.Prop("interleaved_side_file", 6000, 100000, genSide, runSide)
 	h.Enum("all_chunkings_short_inputs", enumExhaustive, run)
 	h.Prop("random_inputs_deliveries", 20000, 300000, genCase, run)
-	h.Prop("buffer_edge_64k", 300, 4000, genEdge, run)
+	h.Prop("buffer_edge_64k", 1600, 24000, genEdge, run)
 }
